@@ -15,20 +15,24 @@ Fixpoint lookup (k : nat) (m : amap) : option nat :=
   match m with [] => None | (k', v) :: m' => if Nat.eqb k k' then Some v else lookup k m' end.
 Definition merge (a b : amap) : amap := b ++ a.     (* lookup finds b's binding first *)
 
-Record settings := mkSet { s_env : amap; s_vars : amap; s_dir : nat (* 0 = "" *) }.
+(* s_rest: everything else a task is made of (name, commands, hooks, condition, variations, timeout, allow_failure, exportAs, context,
+   interactive), as one opaque value: a stage's overrides never touch it *)
+Record settings := mkSet { s_env : amap; s_vars : amap; s_dir : nat (* 0 = "" *); s_rest : nat }.
 (* o_env/o_vars = None: the stage has no container at all (nil) *)
 Record overrides := mkOv { o_env : option amap; o_vars : option amap; o_dir : nat }.
 
 Definition layer (t : settings) (ov : overrides) : settings :=
   mkSet (match o_env ov with Some e => merge (s_env t) e | None => s_env t end)
         (match o_vars ov with Some v => merge (s_vars t) v | None => s_vars t end)
-        (if Nat.eqb (o_dir ov) 0 then s_dir t else o_dir ov).
+        (if Nat.eqb (o_dir ov) 0 then s_dir t else o_dir ov)
+        (s_rest t).
 
 (* the pinned runStage: Variables are rebuilt from Env (typo), and Dir was written at load time *)
 Definition layer_legacy (t : settings) (ov : overrides) : settings :=
   mkSet (match o_env ov with Some e => merge (s_env t) e | None => s_env t end)
         (match o_vars ov with Some v => merge (match o_env ov with Some e => merge (s_env t) e | None => s_env t end) v | None => s_vars t end)
-        (if Nat.eqb (o_dir ov) 0 then s_dir t else o_dir ov).
+        (if Nat.eqb (o_dir ov) 0 then s_dir t else o_dir ov)
+        (s_rest t).
 
 Inductive use := Direct (t : nat) | Stage (t : nat) (ov : overrides).
 Definition task_of (u : use) := match u with Direct t => t | Stage t _ => t end.
